@@ -210,6 +210,7 @@ func runC03(r *Run) {
 		}
 	}
 	overlappingLogins(r, "C03")
+	discoveryThroughFilter(r, "[C03]")
 	discSweep(r, "[C03]") // a provider whose discovery endpoint is briefly unavailable and then healthy: the next handler construction succeeds
 	systemLogin(r)
 	r.Finish("login flows of a browser that follows the redirects: every compliant token-response shape (expires_in absent/0/short/long x refresh token yes/no x string/array audience x token_type capitalisation x extra members) x access-token forwarding on/off x cookie prefix, logout, scopes, store (memory/Redis) x original URLs with reserved characters, followed by 4-11 further requests spread over the token lifetime; handler level with a virtual clock (each line also executed on the Lean model), plus flows through the real ExtAuthZFilter.Check with trigger rules, the real session store factory, the real random generator and the real clock; non-trivial = a completed flow, distinct by (shape, forwarding, URL)")
